@@ -167,3 +167,49 @@ Proof.
   split; [vm_compute; reflexivity|]. split; [vm_compute; reflexivity|]. split; [exact A|]. split; [exact B|].
   split; vm_compute; reflexivity.
 Qed.
+
+(* ---------------------------------------------------------------- boundaries of the widened class *)
+(* Model: xs+=A[eolterm] 'end'; A[ws=' ']: 'a';  on "a a\nend": a rule-level ws inside an eolterm repetition is
+   restored wrongly (the newline-stripped effective set becomes the real one), the newline before 'end' is
+   no longer skipped *)
+Definition g_eolws : grammar := (mkGrammar [mkNode KSeq [1;6] None false [77;111;100;101;108]%N true false None None;
+  mkNode KSeq [2;5] None false [77;111;100;101;108]%N true false None None;
+  mkNode KPlus [3] None true [95;95;97;115;103;110;95;111;110;101;111;114;109;111;114;101]%N true false None None;
+  mkNode KSeq [4] None false [65]%N true false (Some [32]%N) None;
+  mkNode (KStr [97]%N None) [] None false []%N false false None None;
+  mkNode (KStr [101;110;100]%N None) [] None false []%N false false None None;
+  mkNode KEOF [] None false [69;79;70]%N false false None None] 0 None).
+Lemma refuted_eolws :
+  wfg g_eolws 24 = false /\ eol_ws_ok g_eolws = false /\
+  saccepts (spec_run g_eolws c_default (fun _ _ => None) 50 [97;32;97;10;101;110;100]%N) = true /\
+  run g_eolws c_default (fun _ _ => None) false 50 [97;32;97;10;101;110;100]%N = SyntaxErr 3.
+Proof. vm_compute. repeat split. Qed.
+
+(* the same repetition without the rule-level ws is inside the class and agrees *)
+Definition g_eol : grammar := (mkGrammar [mkNode KSeq [1;6] None false [77;111;100;101;108]%N true false None None;
+  mkNode KSeq [2;5] None false [77;111;100;101;108]%N true false None None;
+  mkNode KPlus [3] None true [95;95;97;115;103;110;95;111;110;101;111;114;109;111;114;101]%N true false None None;
+  mkNode KSeq [4] None false [65]%N true false None None;
+  mkNode (KStr [97]%N None) [] None false []%N false false None None;
+  mkNode (KStr [101;110;100]%N None) [] None false []%N false false None None;
+  mkNode KEOF [] None false [69;79;70]%N false false None None] 0 None).
+Lemma eol_in_class :
+  wfg g_eol 24 = true /\
+  accepts (run g_eol c_default (fun _ _ => None) false 50 [97;32;97;10;101;110;100]%N) = true /\
+  accepts (run g_eol c_default (fun _ _ => None) false 50 [97;10;97;10;101;110;100]%N) = false.
+Proof. vm_compute. repeat split. Qed.
+
+(* Model: a=A 'x'; A: &'x';  on "x": a predicate as a rule body - the rule matches the empty string *)
+Definition g_predroot : grammar := (mkGrammar [mkNode KSeq [1;6] None false [77;111;100;101;108]%N true false None None;
+  mkNode KSeq [2;5] None false [77;111;100;101;108]%N true false None None;
+  mkNode KSeq [3] None false [95;95;97;115;103;110;95;112;108;97;105;110]%N true false None None;
+  mkNode KAnd [4] None false [65]%N true false None None;
+  mkNode (KStr [120]%N None) [] None false []%N false false None None;
+  mkNode (KStr [120]%N None) [] None false []%N false false None None;
+  mkNode KEOF [] None false [69;79;70]%N false false None None] 0 None).
+Lemma refuted_predroot :
+  wfg g_predroot 24 = false /\
+  run_tree (run g_predroot c_default (fun _ _ => None) false 50 [120]%N) = [NT 0 [NT 1 [T 5 0 1 true]; T 6 1 0 true]] /\
+  spec_tree (spec_run g_predroot c_default (fun _ _ => None) 50 [120]%N) =
+    [NT 0 [NT 1 [NT 2 [NT 3 []]; T 5 0 1 true]; T 6 1 0 true]].
+Proof. vm_compute. repeat split. Qed.
